@@ -327,3 +327,54 @@ Proof.
   - intros s0 t c. apply mu_dec.
   - apply (R_inv _ _ _ HR).
 Qed.
+
+(* ---------- every run without spurious wake-ups ends, and ends well ---------- *)
+From GV Require Import Progress.
+
+Lemma tstep_choice t c g l : c <> 1%nat -> tstep t c g l = tstep t 0 g l.
+Proof.
+  intros Hc. unfold tstep. destruct (at_ l); try reflexivity.
+  destruct (Nat.eqb_spec c 1); [contradiction|reflexivity].
+Qed.
+
+Lemma settled_quiescent s : settled glob loc tstep no_spurious s <-> quiescentL s.
+Proof.
+  unfold settled, quiescent, no_spurious. split; intros H t c Hc.
+  - apply H. apply negb_true_iff, Nat.eqb_neq. exact Hc.
+  - apply H. apply negb_true_iff, Nat.eqb_neq in Hc. exact Hc.
+Qed.
+
+Lemma pick_move s : (exists t c, no_spurious c = true /\ enabledL s t c) \/ settled glob loc tstep no_spurious s.
+Proof.
+  destruct (enabled_choice_dec glob loc tstep s 0) as [[t He]|Hn].
+  - left. exists t, 0%nat. split; [reflexivity|exact He].
+  - right. intros t c Hc [l [r [Hl Hs]]]. apply (Hn t). exists l, r. split; [exact Hl|].
+    rewrite <- Hs. symmetry. apply tstep_choice.
+    unfold no_spurious in Hc. apply negb_true_iff, Nat.eqb_neq in Hc. exact Hc.
+Qed.
+
+Lemma arrivals_mono_run sc : forall (s : sysL), (arrivals (gl s) <= arrivals (gl (runL s sc)))%nat.
+Proof.
+  induction sc as [|[t c] r IH]; intros s; cbn [run fold_left]; [lia|].
+  etransitivity; [|apply IH]. unfold step, sys_step.
+  destruct (nth_error (thr s) t) as [l|]; [|cbn; lia].
+  destruct (tstep t c (gl s) l) as [[[g' l'] es]|] eqn:Hs; [|cbn; lia].
+  cbn. rewrite (tstep_arrivals _ _ _ _ _ _ _ Hs). lia.
+Qed.
+
+(* from every reachable state in which the count has been reached there is a schedule of at
+   most mu(s) steps, without any spurious wake-up, after which every thread has finished:
+   every current and future waiter returns *)
+Lemma opens_eventually n progs s :
+  R n progs s -> n <= Z.of_nat (arrivals (gl s)) ->
+  exists sc, sched_ok no_spurious sc /\ (length sc <= mu s)%nat /\ all_fin glob loc fin (runL s sc) = true.
+Proof.
+  intros HR Hn.
+  destruct (settles glob loc tstep mu Inv Inv_step no_spurious (fun s0 t c => mu_dec s0 t c) pick_move s (R_inv _ _ _ HR))
+    as [sc [Hok [Hlen Hset]]].
+  exists sc. repeat split; auto.
+  apply (opens_when_count_reached n progs).
+  - destruct HR as [sc0 ->]. exists (sc0 ++ sc). symmetry. apply run_app.
+  - apply settled_quiescent. exact Hset.
+  - pose proof (arrivals_mono_run sc s). lia.
+Qed.
